@@ -8,8 +8,8 @@
                               canonical proposals (C01), in order.
   * `end_to_end`            : hence what is signed for a range of well-formed deposits is the canonical payload of
                               exactly the pending ones.
-  * `signed_digest_binds`   : and each signed digest determines its batch, chain id and bridge address, unless a hash
-                              collision is exhibited (C02).
+  * `signed_digest_binds`   : and each signed digest determines its batch, chain id and bridge address, unless two
+                              different pre-images with the same hash are exhibited among those of the two computations (C02).
 -/
 import SygmaModel.Model.Pipeline
 import SygmaModel.Props.C01
@@ -154,13 +154,15 @@ theorem end_to_end (cap tg : Nat) (msgId : String) (ins : List (C01.Input × Boo
     cases hx2 : x.2 <;> simp [List.filterMap_cons, he, hx2, List.filter_cons, ih']
 
 /-- **Each signed digest binds its batch.** Two deliveries (possibly on different chains / bridge addresses) for
-    which some signed digest coincides carry the same chain id, the same bridge address and the same batch — or the
-    proof exhibits a collision of the hash function. `H` is arbitrary. -/
+    which some signed digest coincides carry the same chain id, the same bridge address and the same batch — or two
+    DIFFERENT byte strings with the same hash are exhibited among the pre-images the two digest computations hand to
+    `H` (`C02.hashedBy`, explicitly computable). `H` is an arbitrary function with 32-byte outputs. -/
 theorem signed_digest_binds (H : C02.Hash) (hlen : ∀ x, (H x).length = 32)
     (c c' : Nat) (a a' : Bytes) (b b' : List C02.Prop')
     (hb : C02.BatchWF c a b) (hb' : C02.BatchWF c' a' b')
     (h : C02.Spec.digest H c a b = C02.Spec.digest H c' a' b') :
-    (c = c' ∧ a = a' ∧ b = b') ∨ C02.Collision H :=
+    (c = c' ∧ a = a' ∧ b = b') ∨
+      C02.ExCollision H (C02.hashedBy H C02.Spec.version c a b) (C02.hashedBy H C02.Spec.version c' a' b') :=
   C02.digest_binding H hlen C02.Spec.version c c' a a' b b' hb hb' h
 
 /-- **Substrate destination.** If no executed-lookup fails, the (at most one) digest handed to signing commits, in
